@@ -304,6 +304,12 @@ func cmdRegistry(args []string) {
 		if rng.Intn(6) == 0 && len(resRegs) < total {
 			registerRes(mkShape("plain", 100000+len(resRegs)))
 		}
+		if rng.Intn(12) == 0 {
+			// World.Reset removes entities and resources, never registrations: every id handed out stays valid
+			r := guard(func(r *result) { w.Reset() })
+			out.write(map[string]interface{}{"op": "reset", "res": map[string]interface{}{"panic": r.panicked, "msg": r.msg},
+				"snap": snapshot()})
+		}
 	}
 	// beyond the limit
 	if *target > total {
